@@ -329,6 +329,7 @@ func checkC02(c *Ctx) {
 
 	// ---- C02.empty ----
 	checkC02Negation(c)
+	checkC02PkSources(c)
 	checkEmptyForms(c, c.Rule("C02.empty", "empty condition forms add no clause (same rule as C09.empty)", 14))
 }
 
